@@ -944,16 +944,26 @@ class Schema:
             cls = jsonschema.Draft201909Validator
         try:
             cls.check_schema(self.root)
-        except jsonschema.exceptions.SchemaError as err:
-            where = "/".join(str(p) for p in list(err.absolute_path)[-3:])
-            keyword = err.validator
-            last = str(list(err.absolute_path)[-1]) if err.absolute_path else ""
-            if last in SCHEMA_KEYWORDS:
-                keyword = f"{keyword}@{last}"
-            problems.append(
-                (f"schema-invalid/metaschema/{keyword}",
-                 {"message": err.message[:500], "path": [str(p) for p in err.absolute_path], "tail": where})
-            )
+            failed = False
+        except jsonschema.exceptions.SchemaError:
+            failed = True
+        if failed:
+            # ``check_schema`` raises on the first error only; list all of them the same way
+            meta_cls = validators.validator_for(cls.META_SCHEMA, default=cls)
+            meta = meta_cls(cls.META_SCHEMA, format_checker=getattr(cls, "FORMAT_CHECKER", None))
+            listed = False
+            for err in meta.iter_errors(self.root):
+                listed = True
+                keyword = str(err.validator)
+                last = str(list(err.absolute_path)[-1]) if err.absolute_path else ""
+                if last in SCHEMA_KEYWORDS:
+                    keyword = f"{keyword}@{last}"
+                problems.append(
+                    (f"schema-invalid/metaschema/{keyword}",
+                     {"message": err.message[:500], "path": [str(p) for p in err.absolute_path]})
+                )
+            if not listed:
+                problems.append(("schema-invalid/metaschema/unlisted", {}))
         for where, ref in iter_refs(self.root):
             ok, _ = resolve_pointer(self.root, ref)
             if not ok:
